@@ -16,35 +16,42 @@ theorem wgDist_getLast (per : Nat) (cus : List Nat) : ∀ acc, (wgDist per cus a
     rw [List.getLast?_cons_of_ne_nil hne] at *
     omega
 
-theorem nwg32_eq (g w : Nat) (h1 : 1 ≤ g) (h2 : g < 4294967296) : nwg32 g w = nwg g w := by
-  unfold nwg32 nwg
-  rw [if_neg (by omega)]
-  have := Nat.div_le_self (g - 1) w
-  exact Nat.mod_eq_of_lt (by omega)
+/-- `ceil(g/w)` in the repaired form equals the specification's `(g-1)/w+1` off the empty axis -/
+theorem nwgI_eq (g w : Nat) (h1 : 1 ≤ g) (hw : 1 ≤ w) : nwgI g w = nwg g w := by
+  unfold nwgI nwg
+  have e : g + w - 1 = g - 1 + w := by omega
+  rw [e, Nat.add_div_right _ (by omega)]
 
-theorem nwg64_eq (g w : Nat) (h1 : 1 ≤ g) : nwg64 g w = nwg g w := by
-  unfold nwg64 nwg
-  rw [if_neg (by omega)]
+theorem nwgI_zero (w : Nat) (hw : 1 ≤ w) : nwgI 0 w = 0 := by
+  unfold nwgI
+  rw [Nat.zero_add]
+  exact Nat.div_eq_of_lt (by omega)
 
-theorem total32_eq (g : Geo) (h : g.NoWrap) : g.total32 = g.total := by
-  obtain ⟨⟨a1, a2⟩, ⟨b1, b2⟩, ⟨c1, c2⟩, ⟨d1, _⟩, ⟨e1, _⟩, ⟨f1, _⟩, ht⟩ := h
-  unfold Geo.total32 Geo.total
-  rw [nwg32_eq _ _ a1 a2, nwg32_eq _ _ b1 b2, nwg32_eq _ _ c1 c2]
-  show (g.nx * g.ny % 4294967296) * g.nz % 4294967296 = g.nx * g.ny * g.nz
+theorem totalI_eq (g : Geo) (h : g.NoWrap) : g.totalI = g.total := by
+  obtain ⟨⟨a1, _⟩, ⟨b1, _⟩, ⟨c1, _⟩, ⟨d1, _⟩, ⟨e1, _⟩, ⟨f1, _⟩, ht⟩ := h
+  unfold Geo.totalI Geo.total
+  rw [nwgI_eq _ _ a1 d1, nwgI_eq _ _ b1 e1, nwgI_eq _ _ c1 f1]
+  show (g.nx * g.ny % 18446744073709551616) * g.nz % 18446744073709551616 = g.nx * g.ny * g.nz
   have hz : 0 < g.nz := g.nz_pos
   have : g.nx * g.ny ≤ g.nx * g.ny * g.nz := Nat.le_mul_of_pos_right _ hz
-  have e1 : g.nx * g.ny % 4294967296 = g.nx * g.ny := Nat.mod_eq_of_lt (by omega)
-  rw [e1, Nat.mod_eq_of_lt ht]
+  have e1 : g.nx * g.ny % 18446744073709551616 = g.nx * g.ny := Nat.mod_eq_of_lt (by omega)
+  rw [e1, Nat.mod_eq_of_lt (by omega)]
 
-theorem wgPerCU64_eq (total s : Nat) (ht : 0 < total) : wgPerCU64 total s = wgPerCU total s := by
-  unfold wgPerCU64 wgPerCU
-  rw [if_neg (by omega)]
+theorem wgPerCUI_eq (total s : Nat) (ht : 0 < total) (hs : 0 < s) : wgPerCUI total s = wgPerCU total s := by
+  unfold wgPerCUI wgPerCU
+  have e : total + s - 1 = total - 1 + s := by omega
+  rw [e, Nat.add_div_right _ hs]
 
-theorem gpuFilter32_eq (g : Geo) (h : g.NoWrap) (d : List Nat) (i : Nat) (c : Coord) :
-    gpuFilter32 g d i c = gpuFilter g d i c := by
-  obtain ⟨⟨a1, a2⟩, ⟨b1, b2⟩, _⟩ := h
-  unfold gpuFilter32 gpuFilter
-  simp only [nwg32_eq _ _ a1 a2, nwg32_eq _ _ b1 b2]
+theorem wgPerCUI_zero (s : Nat) (hs : 0 < s) : wgPerCUI 0 s = 0 := by
+  unfold wgPerCUI
+  rw [Nat.zero_add]
+  exact Nat.div_eq_of_lt (by omega)
+
+theorem gpuFilterI_eq (g : Geo) (h : g.NoWrap) (d : List Nat) (i : Nat) (c : Coord) :
+    gpuFilterI g d i c = gpuFilter g d i c := by
+  obtain ⟨⟨a1, _⟩, ⟨b1, _⟩, _, ⟨d1, _⟩, ⟨e1, _⟩, _⟩ := h
+  unfold gpuFilterI gpuFilter
+  simp only [nwgI_eq _ _ a1 d1, nwgI_eq _ _ b1 e1]
   rfl
 
 theorem total_pos (g : Geo) : 0 < g.total := by
@@ -57,5 +64,39 @@ theorem wgDist_reaches (total : Nat) (cus : List Nat) (hs : 0 < cus.sum) (ht : 0
   rw [wgDist_getLast, Nat.zero_add]
   have := wg_all_allocated total cus.sum hs ht
   omega
+
+/-- an empty axis makes the `int` total 0 -/
+theorem totalI_empty (g : Geo) (hw : 1 ≤ g.wx ∧ 1 ≤ g.wy ∧ 1 ≤ g.wz) (h0 : g.gx = 0 ∨ g.gy = 0 ∨ g.gz = 0) :
+    g.totalI = 0 ∧ nwgI g.gx g.wx * nwgI g.gy g.wy * nwgI g.gz g.wz = 0 := by
+  unfold Geo.totalI
+  rcases h0 with h | h | h <;> rw [h] <;> simp [nwgI_zero, hw.1, hw.2.1, hw.2.2]
+
+/-- with `per = 0` every range is empty -/
+theorem wgDist_zero (cus : List Nat) : ∀ acc, wgDist 0 cus acc = List.replicate (cus.length + 1) acc := by
+  induction cus with
+  | nil => intro acc; rfl
+  | cons c cs ih => intro acc; simp [wgDist, ih, List.replicate_succ]
+
+theorem launched_zero (cus : List Nat) : launched (wgDist 0 cus 0) cus.length = [] := by
+  unfold launched
+  rw [List.filter_eq_nil_iff]
+  intro i hi
+  rw [List.mem_range] at hi
+  simp [wgDist_zero, List.getD_eq_getElem?_getD, hi, Nat.lt_succ_of_lt hi]
+
+/-- with an empty axis `NextWG` produces nothing -/
+theorem enum_empty (g : Geo) (h0 : g.gx = 0 ∨ g.gy = 0 ∨ g.gz = 0) (p : Coord → Bool) (k : Nat) :
+    (enumFrom g p k ⟨0, 0, 0⟩).1 = [] := by
+  have hn : nextWG g ⟨0, 0, 0⟩ = none := by
+    unfold nextWG
+    rw [if_pos (by simp; omega)]
+  cases k with
+  | zero => rfl
+  | succ k =>
+    unfold enumFrom
+    have : nextWGf g p (g.total + 1) ⟨0, 0, 0⟩ = none := by
+      unfold nextWGf
+      rw [hn]
+    rw [this]
 
 end C08
